@@ -8,6 +8,8 @@ every waiter's `Notified` snapshot is at most the current generation, nobody is 
 Holds when the other `set_status` callers publish only values below `Stopping`.
 -/
 
+set_option linter.unusedSimpArgs false
+
 namespace ExitRace
 
 /-- position of the exiter in the exit sequence -/
